@@ -21,15 +21,15 @@ class Config:
     def __init__(self, footprint, analytic, halo, levels, precision="double", typed="float"):
         self.footprint, self.analytic, self.halo, self.levels, self.precision = \
             footprint, analytic, halo, levels, precision
-        self.typed = typed        # "int": surface flux array and background value of integer type
+        self.typed = typed        # "int": surface flux array and background value of integer type; "pt:int": measurement point given as integers
 
     def name(self):
         return "%s|%s|halo=%s|levels=%s|%s" % ("fp" if self.footprint else "disp",
                                                "analytic" if self.analytic else "numeric",
-                                               self.halo, self.levels, self.precision) + ("" if self.typed == "float" else "|q0,bg:" + self.typed)
+                                               self.halo, self.levels, self.precision) + ("" if self.typed == "float" else ("|meas_pt:int" if self.typed == "pt:int" else "|q0,bg:" + self.typed))
 
 
-def configs(precisions=("double",), int_typed=False):
+def configs(precisions=("double",), int_typed=False, int_point=False):
     for fp, an, halo, lv, pr in itertools.product((False, True), (False, True), ("none", "value"),
                                                   ("scalar", "seq"), precisions):
         yield Config(fp, an, halo, lv, pr)
@@ -39,6 +39,12 @@ def configs(precisions=("double",), int_typed=False):
         yield Config(False, False, "none", "seq", precisions[-1], typed="int")
         yield Config(False, True, "value", "scalar", precisions[-1], typed="int")
         yield Config(True, False, "value", "seq", precisions[-1], typed="int")
+    if int_point:
+        # "every measurement point on the grid": coordinates given as Python ints / an integer array (a tower at x = 3 m on
+        # half-metre cells) must not be truncated by the shift arithmetic
+        yield Config(True, False, "value", "seq", precisions[-1], typed="pt:int")
+        yield Config(True, True, "none", "scalar", precisions[-1], typed="pt:int")
+        yield Config(False, False, "value", "scalar", precisions[-1], typed="pt:int")
 
 
 class SInputs:
@@ -47,15 +53,18 @@ class SInputs:
         self.cfg = cfg
         self.nx, self.ny, self.nz = sym.fresh_int("nx" + t), sym.fresh_int("ny" + t), sym.fresh_int("nz" + t)
         run.assume((self.nx >= 2) & (self.ny >= 2) & (self.nz >= 1))
-        self.q0 = arrays.fresh_array("q0" + t, [self.ny, self.nx], "float" if cfg.typed == "float" else "int")
+        self.q0 = arrays.fresh_array("q0" + t, [self.ny, self.nx], "int" if cfg.typed == "int" else "float")
         self.z = arrays.fresh_array("z" + t, [self.nz], "float")
         self.prof = tuple(arrays.fresh_array(n + t, [self.nz], "float") for n in ("u", "v", "Kx", "Ky", "Kz"))
         self.xmx, self.ymx = sym.fresh_real("xmx" + t), sym.fresh_real("ymx" + t)
         run.assume((self.xmx > 0) & (self.ymx > 0))
         self.nlx, self.nly = sym.fresh_int("nlx" + t), sym.fresh_int("nly" + t)
         run.assume((self.nlx >= 2) & (self.nly >= 2))
-        self.xm, self.ym = sym.fresh_real("xm" + t), sym.fresh_real("ym" + t)
-        self.p000 = sym.fresh_real("p000" + t) if cfg.typed == "float" else sym.fresh_int("p000" + t)
+        if cfg.typed == "pt:int":
+            self.xm, self.ym = sym.fresh_int("xm" + t), sym.fresh_int("ym" + t)
+        else:
+            self.xm, self.ym = sym.fresh_real("xm" + t), sym.fresh_real("ym" + t)
+        self.p000 = sym.fresh_int("p000" + t) if cfg.typed == "int" else sym.fresh_real("p000" + t)
         if cfg.halo == "none":
             self.halo = None
         else:
@@ -417,7 +426,7 @@ def generate_main(ctx, props, precisions=("double",), symbolic_threads=False, cf
     st = {}
     f = harness.define(ctx, ns, "bldfm.solver", "steady_state_transport_solver",
                        loop_specs={MEAN_LOOP: MeanLoop(st)}, label=LABEL)
-    for cfg in configs(precisions, int_typed=bool({"C04", "C03"} & set(props))):
+    for cfg in configs(precisions, int_typed=bool({"C04", "C03"} & set(props)), int_point=bool({"C02", "C06"} & set(props))):
         if cfg_filter and not cfg_filter(cfg):
             continue
 
